@@ -218,11 +218,13 @@ CHECKS = {
         "level_text": ("Bounded model checking of the real reader on a genuine 3-entry stream in which the payload bytes (symbolic garbage) "
                        "or the checksum bytes (4 concrete alterations) of ONE frame are damaged, for every frame of the stream: the replay "
                        "loop delivers exactly the other entries, intact and in order, reports exactly one corruption and terminates. "
+                       "The checksum oracle these cases rest on is backed by the real-CRC harnesses (c08_crc_*: what write_frame stores and read_frame "
+                       "accepts is CRC-32(type ++ payload), no stub), which this check also runs. "
                        "That replay tolerates the missing entry at the queue level (gaps, re-created queues) is MultiRecordLog/MemQueues glue and not claimed."),
         "level_note": "trusted: kani-compiler, CBMC, CaDiCaL; ideal-checksum oracle (a damaged frame fails its check; CRC collisions excluded); ArrW/ArrR devices; cases where the reader's cursor would fork are cut one call after the failure (DESIGN B18)",
-        "filters": ["c09_"],
-        "quick": {"harnesses": [("16", "c09_crc_q*")], "jobs": 14, "timeout": 1200},
-        "thorough": {"harnesses": [("16", "c09_*"), ("32", "c09_crc_t32_*")], "jobs": 8, "timeout": 3000},
+        "filters": ["c09_", "c08_crc_"],
+        "quick": {"harnesses": [("16", "c09_crc_q*"), ("16", "c08_crc_*_q*")], "jobs": 14, "timeout": 1200},
+        "thorough": {"harnesses": [("16", "c09_*"), ("16", "c08_crc_*"), ("32", "c09_crc_t32_*")], "jobs": 8, "timeout": 3000},
         "rule": ("case = (length triple, frame index, damage kind, variant); lengths pairwise distinct; hit frame enumerated over every frame of "
                  "the stream; non-trivial = the hit frame belongs to a multi-frame entry or is followed by other entries; counted from the symex log"),
         "samples": ["c09_crc_q_a_f2: lengths (5,20,1), frame 2 = Middle frame of the 3-frame entry: payload <- 9 symbolic bytes; checksum ^0x01 / ^0x80.. / zeroed / 0xff",
@@ -268,8 +270,8 @@ CHECKS = {
                        "truncation of it is either rejected or a whole number of leading items. That append_records puts the whole batch "
                        "into ONE entry and applies it after the write is MultiRecordLog glue and not claimed."),
         "level_note": "trusted: kani-compiler, CBMC, CaDiCaL; ideal-checksum oracle; from_utf8 stub; forking cases cut one call after the failure (B18)",
-        "filters": ["c12_"],
-        "quick": {"harnesses": [("16", "c12_ent_*_q*"), ("16", "c12_cut_q*"), ("real", "c12_batch_q*")], "jobs": 14, "timeout": 1500},
+        "filters": ["c12_", "c08_crc_"],
+        "quick": {"harnesses": [("16", "c12_ent_*_q*"), ("16", "c12_cut_q*"), ("16", "c08_crc_*_q*"), ("real", "c12_batch_q*")], "jobs": 14, "timeout": 1500},
         "thorough": {"harnesses": [("16", "c12_ent_*"), ("16", "c12_big_*"), ("16", "c12_cut_*"), ("real", "c12_batch_*")], "jobs": 8, "timeout": 3600, "mem_gb": 16},
         "rule": "case = (frame of the large entry, damage kind, variant) or (cut offset) or (batch shape, truncation point); counted from the symex log",
         "samples": ["c12_ent_len_q_a_f3: lengths (5,20,1): entry 1 = First+Middle+Last; Last frame: length -> 0, 1, 3, 16, 0xffff",
